@@ -232,10 +232,13 @@ func c02Record(p string, shape int) ch.Record {
 	return r
 }
 
+// c02NoShapes pins the record shape to 0 in thorough entries whose other dimensions are already large.
+var c02NoShapes bool
+
 // c02Shape: quick = shape 0; thorough = any of the first n shapes, chosen once per record group
 // (all stored records share one shape, the records of a request share another).
 func c02Shape(p string, n int) int {
-	if !zzsym.Thorough() {
+	if !zzsym.Thorough() || c02NoShapes {
 		return 0
 	}
 	return zzsym.Choice(p+".shape", n)
@@ -490,6 +493,7 @@ func c02MaxU64(a, b uint64) uint64 {
 // proposals chained to the tail (the construction all other entries start from) accepts each
 // proposal as Durable, satisfies the invariant and holds exactly the appended proposals.
 func Harness_C02_BuildInvariant() {
+	c02NoShapes = false
 	s, m := c02Build("b", 0, c02MaxProposals(), true)
 	loader, hwOK, chain, tiles := c02Inv(s)
 	zzsym.Assert(loader, "built store: the exact-state loader fails or misreports the tail")
@@ -574,6 +578,7 @@ func c02AppendStep(wellFormed bool, maxBuild int) (AppendOutcome, bool) {
 // Harness_C02_AppendStep: one exact AppendLeader with a sealed, well-formed proposal at an arbitrary
 // base offset, arbitrary predecessor, authority, command id (possibly stored) and Committed.
 func Harness_C02_AppendStep() {
+	c02NoShapes = false
 	outcome, far := c02AppendStep(true, c02MaxProposals())
 	if far {
 		zzsym.Reach("far-base")
@@ -586,16 +591,13 @@ func Harness_C02_AppendStep() {
 // Harness_C02_AppendMalformed: one exact AppendLeader whose manifest range fields, version, record
 // validity and digest are arbitrary: nothing but a sealed well-formed proposal is ever written.
 func Harness_C02_AppendMalformed() {
-	max := 1
-	if zzsym.Thorough() {
-		max = 2
-	}
-	c02AppendStep(false, max)
+	c02NoShapes = true
+	c02AppendStep(false, 1)
 }
 
 // ---------------------------------------------------------------- (1) ReplaceRecoverySuffix step
 
-func c02ReplaceStep(wellFormed bool, maxBuild, maxProposals int) {
+func c02ReplaceStep(wellFormed bool, maxBuild, maxProposals int, fixedCount bool) {
 	s, m := c02Build("b", 0, maxBuild, false)
 	leo, hw := m.leo(), m.hw
 
@@ -634,7 +636,7 @@ func c02ReplaceStep(wellFormed bool, maxBuild, maxProposals int) {
 		kept = m.prefix(kt) // meaningful only on a proposal boundary; an off-boundary cut is never accepted
 	}
 	np := maxProposals
-	if wellFormed {
+	if !fixedCount {
 		np = zzsym.Choice("r.proposals", maxProposals+1)
 	}
 	next := &c02Model{manifests: kept.manifests, entries: kept.entries, records: kept.records}
@@ -692,21 +694,23 @@ func c02ReplaceStep(wellFormed bool, maxBuild, maxProposals int) {
 // deviation from the real one), arbitrary KeepThrough and Committed, and 0..1 (thorough 0..2)
 // well-formed replacement proposals with arbitrary predecessor/authority/command.
 func Harness_C02_ReplaceStep() {
-	if zzsym.Thorough() {
-		c02ReplaceStep(true, 2, 2)
-		return
-	}
-	c02ReplaceStep(true, 2, 1)
+	c02NoShapes = false
+	c02ReplaceStep(true, 2, 1, false)
+}
+
+// Harness_C02_ReplaceTwoProposals (thorough only): a replacement suffix of exactly two proposals on
+// a history of 0..1 proposals: the second must chain on the first, command ids must be new among
+// the kept prefix and the first replacement, and a failure of the second leaves the store untouched.
+func Harness_C02_ReplaceTwoProposals() {
+	c02NoShapes = true
+	c02ReplaceStep(true, 1, 2, true)
 }
 
 // Harness_C02_ReplaceMalformed: the replacement proposal itself is arbitrary (range fields,
 // version, records, digest): a replace is atomic, nothing is cut unless the whole suffix is valid.
 func Harness_C02_ReplaceMalformed() {
-	if zzsym.Thorough() {
-		c02ReplaceStep(false, 2, 1)
-		return
-	}
-	c02ReplaceStep(false, 1, 1)
+	c02NoShapes = true
+	c02ReplaceStep(false, 1, 1, true)
 }
 
 // ---------------------------------------------------------------- (1) watermark setter
@@ -715,6 +719,7 @@ func Harness_C02_ReplaceMalformed() {
 // store itself does not clamp: the caller contract HW <= LEO (the reactor passes its state HW,
 // C06) is needed for the HW <= LEO part; Load clamps what it reports.
 func Harness_C02_StoreCheckpoint() {
+	c02NoShapes = false
 	s, m := c02Build("b", 0, 2, false)
 	hw := zzsym.U64("checkpoint.hw")
 	err := s.StoreCheckpoint(context.Background(), ch.Checkpoint{HW: hw})
@@ -738,6 +743,7 @@ func Harness_C02_StoreCheckpoint() {
 // chain invariant, Harness_C02_BuildInvariant). If they hold the same identity (digest) at offset
 // i they hold the same identity and the same content at every offset j <= i.
 func Harness_C02_Agreement() {
+	c02NoShapes = false
 	max := 2
 	if zzsym.Thorough() {
 		max = 3
